@@ -21,6 +21,17 @@ impl Address {
             Address::Socket(addr) => Ok(*addr),
         }
     }
+
+    /// The same for a task of the runtime: the look-up of a name runs on the blocking pool, so that a resolver that
+    /// is slow to answer holds up the flow that asked and not every flow scheduled on the same worker thread
+    pub async fn resolve(&self) -> io::Result<SocketAddr> {
+        match self {
+            Address::Domain(host, port) => {
+                tokio::net::lookup_host(format!("{host}:{port}")).await?.next().ok_or(io::Error::new(io::ErrorKind::AddrNotAvailable, ""))
+            }
+            Address::Socket(addr) => Ok(*addr),
+        }
+    }
 }
 
 impl PartialOrd for Address {
